@@ -89,7 +89,8 @@ def diverging_sites(F, fns):
                         for o in Origins(fl).of_operand(a):
                             if o[0] == "const" and isinstance(o[1], str) and o[1].startswith('"'):
                                 msg = o[1].strip('"')
-                yield dict(kind=p.rsplit("::", 1)[-1], msg=msg, ctx=type_head(c.targs[0]) if not msg and c.targs else "",
+                # keyed by the receiver's payload type (the message may be a literal, a constant, a format...)
+                yield dict(kind=p.rsplit("::", 1)[-1], msg="", ctx=type_head(c.targs[0]) if c.targs else "", info=msg,
                            fn=f, file=c.file, line=c.line)
             elif UNWRAPS.match(p) and c.macros:
                 # unwrap/expect inside a foreign macro expansion (e.g. lazy_static, thread_local): census by macro
@@ -332,6 +333,33 @@ LOOKUPS = re.compile(
 MARKS = re.compile(r"std::collections::(BTreeMap|HashMap|BTreeSet|HashSet)::<[^>]*>::(insert|contains|contains_key)$")
 
 
+def keyed_search(F, f):
+    """hand-written linear search: a `for` loop over a collection reached from self / a parameter whose body
+    returns (a part of) the element under `if <element part> == <parameter>`"""
+    tree = F.hir.get(f.id)
+    if tree is None:
+        return False
+    plids = {x.get("lid") for p in tree["params"] for x in walk(p) if x["k"] == "P.Binding"}
+
+    def lids(e):
+        return {x.get("lid") for x in walk(e) if x["k"] == "Path" and x.get("res") == "local"}
+    for m in walk(tree["body"]):
+        if m["k"] != "Match" or m.get("src") != "ForLoopDesugar" or not (m.get("scrut_adt") or "").endswith("Option"):
+            continue
+        for a in m["arms"]:
+            elem = {x.get("lid") for x in walk(a["pat"]) if x["k"] == "P.Binding"}
+            if not elem:
+                continue
+            for i in walk(a["body"]):
+                if i["k"] != "If":
+                    continue
+                conds = [b for b in walk(i["cond"]) if b["k"] == "Binary" and b["op"] == "Eq"]
+                keyed = any((lids(b["l"]) & elem and lids(b["r"]) & plids) or (lids(b["r"]) & elem and lids(b["l"]) & plids) for b in conds)
+                if keyed and any(r["k"] == "Ret" and lids(r) & elem for r in walk(i["then"])):
+                    return True
+    return False
+
+
 def lookup_returning(F, fns):
     """least fixpoint: local functions whose return value may derive from a table lookup
     (directly or through another such function)"""
@@ -354,6 +382,12 @@ def lookup_returning(F, fns):
                     continue
                 if LOOKUPS.search(o[1]):
                     R[g] = o[1]
+                    changed = True
+                    break
+                if re.search(r"Iterator(>)?::next$", o[1]) and keyed_search(F, f):
+                    # hand-written linear search: returns an element of an iterated collection, selected by
+                    # comparing against a parameter
+                    R[g] = "linear search keyed by a parameter (%s)" % o[1]
                     changed = True
                     break
                 tg = F._callee_gid(f.crate, o[1])
@@ -449,6 +483,7 @@ def marked_sites(F, scc_of):
     check-or-insert on a set/map that outlives the call (reached through self/parameters/captures,
     not a local accumulator): the recognised shape of a visited-set / memo cut"""
     out = {}
+    created = {}
     for g in scc_of:
         f = F.fns[g]
         if not f.mir:
@@ -468,6 +503,21 @@ def marked_sites(F, scc_of):
             for bi in dom.get(c.bb, ()):
                 if bi in marks and bi != c.bb:
                     out[(g, c.bb)] = marks[bi]
+        # closures created under a mark run under it: every creation site of the closure in this body that is
+        # dominated by a mark hands the mark on to the closure's own call sites
+        for bi, b in enumerate(f.mir["blocks"]):
+            for st in b["stmts"]:
+                rv = st.get("rv")
+                if rv and rv["k"] == "Aggregate" and rv.get("agg") == "Closure":
+                    cg = F._callee_gid(f.crate, rv["closure"])
+                    m = [marks[d] for d in dom.get(bi, ()) if d in marks and d != bi]
+                    created.setdefault(cg, []).append(m[0] if m else None)
+    for cg, ms in created.items():
+        cf = F.fns.get(cg)
+        if cf is None or not cf.mir or cg not in scc_of or not all(ms):
+            continue
+        for c in cf.calls:
+            out.setdefault((cg, c.bb), ms[0] + " (dominating the closure's creation)")
     return out
 
 
@@ -681,6 +731,60 @@ def run(cx, rep):
                                "%s::%s is constructed outside diag.rs (in %s): the file name, source map and span of a diagnostic must come from the same file value" % (adt, st["rv"].get("variant"), g),
                                "%s:%s" % (f.file, st.get("line")))
     rep.floor("C04.4", "Location constructions", n_ctor, 2)
+    # the file whose source map locates the span is the file the diagnostic names (same value at each call site)
+    n_lb = 0
+    for gid, tree in F.hir.items():
+        f = F.fns.get(gid)
+        if f is None or f.crate == WASM:
+            continue
+        for n in walk(tree["body"]):
+            if n["k"] == "Call" and (n.get("callee") or "").endswith("Location::build") and len(n["args"]) == 3:
+                n_lb += 1
+                def chain(e):
+                    out = []
+                    while e["k"] in ("AddrOf", "Unary", "MethodCall", "Field"):
+                        if e["k"] == "Field":
+                            out.append(e["name"])
+                            e = e["e"]
+                        elif e["k"] == "MethodCall":
+                            e = e["recv"]
+                        else:
+                            e = e["e"]
+                    if e["k"] == "Path" and e.get("res") == "local":
+                        out.append(e["name"])
+                    return ".".join(reversed(out))
+                cur = chain(n["args"][2])
+                fexpr = n["args"][0]
+                if fexpr["k"] == "Path" and fexpr.get("res") == "local":
+                    for st in walk(tree["body"]):
+                        if st["k"] == "LetStmt" and st["pat"].get("name") == fexpr["name"] and st.get("init") is not None:
+                            fexpr = st["init"]
+                got = None
+                for x in walk(fexpr):
+                    if x["k"] == "MethodCall" and x["method"] == "get_existing_file":
+                        got = chain(x["args"][0])
+                rep.ob("C04.4", "build-site/%s" % owner_of(F, f), got is not None and got == cur,
+                       "Location::build in %s locates the span in the source map of file `%s` but names `%s` as current file: line/column would be computed against another file's text" % (gid, got, cur),
+                       "%s:%s" % (f.file, n["line"]), sample={"site": gid.rsplit("::", 1)[-1], "file_from": got, "current_file": cur})
+                span = chain(n["args"][1])
+                if "." in cur and "." in span:
+                    rep.ob("C04.4", "build-site-span/%s" % owner_of(F, f), span.rsplit(".", 1)[0] == cur.rsplit(".", 1)[0],
+                           "the span (%s) and the file (%s) handed to Location::build come from different anchors" % (span, cur), "%s:%s" % (f.file, n["line"]))
+    rep.floor("C04.4", "Location::build call sites", n_lb, 2)
+    lb = [g for g in F.hir if g.endswith("Location::build")]
+    for g in lb:
+        tree = F.hir[g]
+        ps = [p.get("name") for p in tree["params"]]
+        for arm in [a for n in walk(tree["body"]) if n["k"] == "Match" for a in n["arms"] if (a["pat"].get("def") or "").endswith("Some")]:
+            bound = [b["name"] for b in walk(arm["pat"]) if b["k"] == "P.Binding"]
+            roots = set()
+            for x in walk(arm["body"]):
+                if x["k"] == "Field" and x["name"] in ("source_map", "end_pos", "bff_fname", "fm", "module"):
+                    ls = [y["name"] for y in walk(x) if y["k"] == "Path" and y.get("res") == "local"]
+                    roots |= set(ls)
+            rep.ob("C04.4", "build/one-file-value", roots == set(bound[:1]),
+                   "Location::build must take the reported file name, the source map and the end position from the same file value (found roots %s)" % sorted(roots), F.fns[g].loc(),
+                   sample={"file_value": bound[:1], "projections_rooted_at": sorted(roots)})
 
     # positive controls
     rep.rule("C04.ctl", "positive controls in the canary crate")
